@@ -22,6 +22,10 @@ class _Cexptrk_Potential_Function(object):
     parameter_names = self._potential_form_tuple.signature.parameter_names
     for pn in parameter_names:
       try:
+        # The expression library reads its literals true, false and null without regard to case but only refuses them
+        # as variable names when spelt in lower case: 'True' would be accepted here and then read as the literal.
+        if pn.lower() in ('true', 'false', 'null'):
+          raise KeyError("'{}' is a literal of the expression language".format(pn.lower()))
         local_symbol_table.variables[pn] = 1.0
       except KeyError as e:
         # Raised by the expression library for names it cannot use as variables: its built-in constants
